@@ -25,6 +25,7 @@
 
 
 #include "XObjectFactory.hpp"
+#include "XPathCharacters.hpp"
 
 
 
@@ -232,7 +233,15 @@ FunctionSubstring::execute(
     assert(arg1.null() == false && arg2.null() == false);   
 
     const XalanDOMString&               theSourceString = arg1->str(executionContext);
-    const XalanDOMString::size_type     theSourceStringLength = theSourceString.length();
+    const XalanDOMString::size_type     theSourceStringUnits = theSourceString.length();
+
+    // Positions and lengths count characters, and a surrogate pair
+    // is one character.
+    const XalanDOMString::size_type     theSurrogatePairs =
+        XPathCharacters::countPairs(theSourceString.c_str(), theSourceStringUnits);
+
+    const XalanDOMString::size_type     theSourceStringLength =
+        theSourceStringUnits - theSurrogatePairs;
 
     if (theSourceStringLength == 0)
     {
@@ -275,9 +284,30 @@ FunctionSubstring::execute(
 
                 XalanDOMString&     theString = theResult.get();
 
-                theString.assign(
-                        theSourceString.c_str() + theStartIndex,
-                        theSubstringLength);
+                if (theSurrogatePairs == 0)
+                {
+                    // Every character is one code unit.
+                    theString.assign(
+                            theSourceString.c_str() + theStartIndex,
+                            theSubstringLength);
+                }
+                else
+                {
+                    const XalanDOMChar* const   theChars = theSourceString.c_str();
+
+                    const XalanDOMString::size_type     theFirstUnit =
+                        XPathCharacters::unitsOf(
+                            theChars,
+                            theSourceStringUnits,
+                            theStartIndex);
+
+                    theString.assign(
+                            theChars + theFirstUnit,
+                            XPathCharacters::unitsOf(
+                                theChars + theFirstUnit,
+                                theSourceStringUnits - theFirstUnit,
+                                theSubstringLength));
+                }
 
                 return executionContext.getXObjectFactory().createString(theResult);
             }
